@@ -107,3 +107,45 @@ theorem build_registers {fl : α → Int} (hf : IsFloor fl) (feats : List (List 
   exact hreg k t hk A B hAB pA pB hpA hpB _ (cellsCross_complete hf pA pB s hs0 hs1)
 
 end TV.Grid
+
+namespace TV.Grid
+variable {α : Type} [Field α] [LinearOrder α] [IsStrictOrderedRing α]
+
+/-- the cells tile the extent exactly: `csize · dX = xmax − xmin`, `lsize · dY = ymax − ymin` -/
+theorem build_extent {fl : α → Int} (feats : List (List (α × α))) (res : Option (α × α)) (margin : α) (ix : Index α)
+    (hm : 0 ≤ margin) (hb : build fl feats res margin = .ok ix) :
+    ix.dX * ((ix.csize : Int) : α) = ix.xmax - ix.xmin ∧ ix.dY * ((ix.lsize : Int) : α) = ix.ymax - ix.ymin := by
+  unfold build at hb
+  cases hbb : bboxOf feats.flatten with
+  | none => simp [hbb] at hb
+  | some bb =>
+    simp only [hbb] at hb
+    cases hmk : mkIndex fl bb res margin with
+    | error e => simp [hmk] at hb
+    | ok ix0 =>
+      simp only [hmk] at hb
+      have hbounds := bboxOf_bounds _ bb hbb
+      have hin0 : ∀ t ∈ feats, ∀ p ∈ t, getCell ix0 p ≠ none := by
+        intro t ht p hp
+        exact getCell_of_bbox fl bb res margin ix0 hmk hm p (hbounds p (List.mem_flatten.mpr ⟨t, ht, hp⟩))
+      obtain ⟨e, _, _⟩ := addFeatures_spec fl feats ix0 ix 0 (mkIndex_wf fl bb res margin ix0 hmk) hin0 hb
+      obtain ⟨m1, m2, m3, m4, c1, c2, m7, m8, _⟩ := mkIndex_ok fl bb res margin ix0 hmk
+      obtain ⟨e1, e2, e3, e4, e5, e6, e7, e8⟩ := e.1
+      rw [e1, e2, e3, e4, e5, e6, e7, e8, m7, m8, m1, m2, m3, m4]
+      have h1 : ((ix0.csize : Int) : α) ≠ 0 := by exact_mod_cast c1
+      have h2 : ((ix0.lsize : Int) : α) ≠ 0 := by exact_mod_cast c2
+      exact ⟨div_mul_cancel₀ _ h1, div_mul_cancel₀ _ h2⟩
+
+/-- a point strictly below the upper border of the extent has a column (row) index inside the grid -/
+theorem floor_index_range {fl : α → Int} (hf : IsFloor fl) (o hi dC x : α) (n : Int) (hdC : 0 < dC)
+    (hext : dC * ((n : Int) : α) = hi - o) (h1 : o ≤ x) (h2 : x < hi) :
+    0 ≤ fl ((x - o) / dC) ∧ fl ((x - o) / dC) < n := by
+  constructor
+  · have := hf.mono (div_nonneg (sub_nonneg.mpr h1) (le_of_lt hdC))
+    rwa [hf.zero] at this
+  · have h3 : (x - o) / dC < ((n : Int) : α) := by
+      rw [div_lt_iff₀ hdC]; linarith [mul_comm dC ((n : Int) : α)]
+    have h4 : ((fl ((x - o) / dC) : Int) : α) < ((n : Int) : α) := lt_of_le_of_lt (hf _).1 h3
+    exact_mod_cast h4
+
+end TV.Grid
